@@ -1,6 +1,6 @@
 (* Dv/Refresh.v — RibEntry.refresh computes the two least (cost, next-hop hash) pairs among the costs below
    infinity, whatever the order in which the Go map is iterated ("ties are broken the same way every time"). *)
-From Coq Require Import Lia ZifyBool ZifyN Permutation.
+From Coq Require Import Lia ZifyBool ZifyN ZArith Permutation.
 From Dv Require Import Model.
 Open Scope N_scope.
 
@@ -9,25 +9,6 @@ Lemma INF_pos : 0 < INF. Proof. reflexivity. Qed.
 Lemma INF_small : INF + 1 < 18446744073709551616. Proof. reflexivity. Qed.
 Lemma local_cost_val : local_cost = 1. Proof. reflexivity. Qed.
 Global Opaque INF.
-
-(* (c1, h1) <= (c2, h2) lexicographically *)
-Definition lex_le (c1 : N) (h1 : node) (c2 : N) (h2 : node) : Prop := c1 < c2 \/ (c1 = c2 /\ h1 <= h2).
-
-(* (l1, h1) is the least (cost, hop) pair of cs among costs below INF; (INF, 0) if there is none *)
-Definition first_ok (cs : list (node * N)) (l1 : N) (h1 : node) : Prop :=
-  (l1 = INF /\ h1 = 0 /\ forall h c, In (h, c) cs -> INF <= c) \/
-  (l1 < INF /\ In (h1, l1) cs /\ forall h c, In (h, c) cs -> lex_le l1 h1 c h).
-
-(* (l2, h2) is the least pair among the hops other than h1 *)
-Definition second_ok (cs : list (node * N)) (h1 : node) (l2 : N) (h2 : node) : Prop :=
-  (l2 = INF /\ h2 = 0 /\ forall h c, In (h, c) cs -> h <> h1 -> INF <= c) \/
-  (l2 < INF /\ In (h2, l2) cs /\ h2 <> h1 /\ forall h c, In (h, c) cs -> h <> h1 -> lex_le l2 h2 c h).
-
-Definition two_least (cs : list (node * N)) (b : best4) : Prop :=
-  let '(l1, h1, l2, h2) := b in first_ok cs l1 h1 /\ second_ok cs h1 l2 h2.
-
-Lemma two_least_nil : two_least [] (INF, 0, INF, 0).
-Proof. split; left; repeat split; intros h c []. Qed.
 
 Lemma in_snoc : forall (A : Type) (l : list A) (x y : A), In x (l ++ [y]) <-> In x l \/ x = y.
 Proof.
@@ -39,18 +20,42 @@ Ltac inv_pair :=
   | H : (_, _) = (_, _) |- _ => inversion H; subst; clear H
   end.
 
+(* ---- for an ARBITRARY tie-break: any injective rank of the next hops (smaller rank wins) ---- *)
+Section AnyTieBreak.
+Variable key : node -> Z.
+Hypothesis key_inj : forall a b, key a = key b -> a = b.
+
+(* (c1, h1) <= (c2, h2): by cost, ties by rank *)
+Definition lex_le_k (c1 : N) (h1 : node) (c2 : N) (h2 : node) : Prop := c1 < c2 \/ (c1 = c2 /\ (key h1 <= key h2)%Z).
+
+(* (l1, h1) is the least (cost, hop) pair of cs among costs below INF; (INF, 0) if there is none *)
+Definition first_ok_k (cs : list (node * N)) (l1 : N) (h1 : node) : Prop :=
+  (l1 = INF /\ h1 = 0 /\ forall h c, In (h, c) cs -> INF <= c) \/
+  (l1 < INF /\ In (h1, l1) cs /\ forall h c, In (h, c) cs -> lex_le_k l1 h1 c h).
+
+(* (l2, h2) is the least pair among the hops other than h1 *)
+Definition second_ok_k (cs : list (node * N)) (h1 : node) (l2 : N) (h2 : node) : Prop :=
+  (l2 = INF /\ h2 = 0 /\ forall h c, In (h, c) cs -> h <> h1 -> INF <= c) \/
+  (l2 < INF /\ In (h2, l2) cs /\ h2 <> h1 /\ forall h c, In (h, c) cs -> h <> h1 -> lex_le_k l2 h2 c h).
+
+Definition two_least_k (cs : list (node * N)) (b : best4) : Prop :=
+  let '(l1, h1, l2, h2) := b in first_ok_k cs l1 h1 /\ second_ok_k cs h1 l2 h2.
+
+Lemma two_least_nil_k : two_least_k [] (INF, 0, INF, 0).
+Proof. split; left; repeat split; intros h c []. Qed.
+
 (* one loop iteration keeps the invariant, provided the hop is new (Go map keys are unique) *)
-Lemma refresh_step_ok : forall cs acc hop cost,
-  two_least cs acc -> ~ In hop (map fst cs) ->
-  two_least (cs ++ [(hop, cost)]) (refresh_step acc (hop, cost)).
+Lemma refresh_step_ok_k : forall cs acc hop cost,
+  two_least_k cs acc -> ~ In hop (map fst cs) ->
+  two_least_k (cs ++ [(hop, cost)]) (refresh_step_k key acc (hop, cost)).
 Proof.
   intros cs [[[l1 h1] l2] h2] hop cost [F S] Hnew.
   assert (Hne : forall c, ~ In (hop, c) cs).
   { intros c Hin. apply Hnew. apply in_map_iff. exists (hop, c). auto. }
-  unfold refresh_step.
-  destruct ((cost <? l1) || ((cost =? l1) && (hop <? h1))) eqn:C1.
+  unfold refresh_step_k.
+  destruct ((cost <? l1) || ((cost =? l1) && (cost <? INF) && (key hop <? key h1)%Z)) eqn:C1.
   - (* new best; old best becomes second *)
-    assert (Hlt : cost < l1 \/ (cost = l1 /\ hop < h1)) by lia.
+    assert (Hlt : cost < l1 \/ (cost = l1 /\ cost < INF /\ (key hop < key h1)%Z)) by lia.
     assert (Hl1 : l1 <= INF) by (destruct F as [(-> & _) | (? & _)]; lia).
     assert (Hc : cost < INF).
     { destruct F as [(-> & -> & _) | (? & _)]; lia. }
@@ -58,9 +63,9 @@ Proof.
     + right. split; [exact Hc|]. split; [apply in_snoc; auto|].
       intros h c Hin. apply in_snoc in Hin. destruct Hin as [Hin | Heq].
       * destruct F as [(-> & -> & Fa) | (Fl & Fi & Fa)].
-        -- specialize (Fa _ _ Hin). unfold lex_le. lia.
-        -- specialize (Fa _ _ Hin). unfold lex_le in *. lia.
-      * inv_pair. unfold lex_le. lia.
+        -- specialize (Fa _ _ Hin). unfold lex_le_k. lia.
+        -- specialize (Fa _ _ Hin). unfold lex_le_k in *. lia.
+      * inv_pair. unfold lex_le_k. lia.
     + destruct F as [(-> & -> & Fa) | (Fl & Fi & Fa)].
       * left. repeat split; auto.
         intros h c Hin Hnh. apply in_snoc in Hin. destruct Hin as [Hin | Heq].
@@ -71,14 +76,14 @@ Proof.
         intros h c Hin Hnh. apply in_snoc in Hin. destruct Hin as [Hin | Heq].
         -- apply (Fa _ _ Hin).
         -- inv_pair. congruence.
-  - destruct ((cost <? l2) || ((cost =? l2) && (hop <? h2))) eqn:C2.
+  - destruct ((cost <? l2) || ((cost =? l2) && (cost <? INF) && (key hop <? key h2)%Z)) eqn:C2.
     + (* new second best *)
-      assert (Hlt : cost < l2 \/ (cost = l2 /\ hop < h2)) by lia.
-      assert (Hge : l1 < cost \/ (l1 = cost /\ h1 <= hop)) by lia.
+      assert (Hlt : cost < l2 \/ (cost = l2 /\ cost < INF /\ (key hop < key h2)%Z)) by lia.
+      assert (Hge : l1 < cost \/ (l1 = cost /\ (INF <= cost \/ (key h1 <= key hop)%Z))) by lia.
       assert (Hl2 : l2 <= INF) by (destruct S as [(-> & _) | (? & _)]; lia).
       assert (Hc : cost < INF).
       { destruct S as [(-> & -> & _) | (? & _)]; lia. }
-      assert (Hf : l1 < INF /\ In (h1, l1) cs /\ forall h c, In (h, c) cs -> lex_le l1 h1 c h).
+      assert (Hf : l1 < INF /\ In (h1, l1) cs /\ forall h c, In (h, c) cs -> lex_le_k l1 h1 c h).
       { destruct F as [(-> & -> & Fa) | Fr]; [lia | exact Fr]. }
       destruct Hf as (Fl & Fi & Fa).
       assert (Hhop : hop <> h1) by (intros ->; exact (Hne _ Fi)).
@@ -86,16 +91,16 @@ Proof.
       * right. split; [exact Fl|]. split; [apply in_snoc; auto|].
         intros h c Hin. apply in_snoc in Hin. destruct Hin as [Hin | Heq].
         -- apply (Fa _ _ Hin).
-        -- inv_pair. unfold lex_le. lia.
+        -- inv_pair. unfold lex_le_k. lia.
       * right. split; [exact Hc|]. split; [apply in_snoc; auto|]. split; [exact Hhop|].
         intros h c Hin Hnh. apply in_snoc in Hin. destruct Hin as [Hin | Heq].
         -- destruct S as [(-> & -> & Sa) | (Sl & Si & Sn & Sa)].
-           ++ specialize (Sa _ _ Hin Hnh). unfold lex_le. lia.
-           ++ specialize (Sa _ _ Hin Hnh). unfold lex_le in *. lia.
-        -- inv_pair. unfold lex_le. lia.
+           ++ specialize (Sa _ _ Hin Hnh). unfold lex_le_k. lia.
+           ++ specialize (Sa _ _ Hin Hnh). unfold lex_le_k in *. lia.
+        -- inv_pair. unfold lex_le_k. lia.
     + (* unchanged *)
-      assert (Hge1 : l1 < cost \/ (l1 = cost /\ h1 <= hop)) by lia.
-      assert (Hge2 : l2 < cost \/ (l2 = cost /\ h2 <= hop)) by lia.
+      assert (Hge1 : l1 < cost \/ (l1 = cost /\ (INF <= cost \/ (key h1 <= key hop)%Z))) by lia.
+      assert (Hge2 : l2 < cost \/ (l2 = cost /\ (INF <= cost \/ (key h2 <= key hop)%Z))) by lia.
       split.
       * destruct F as [(-> & -> & Fa) | (Fl & Fi & Fa)].
         -- left. repeat split; auto.
@@ -105,7 +110,7 @@ Proof.
         -- right. split; [exact Fl|]. split; [apply in_snoc; auto|].
            intros h c Hin. apply in_snoc in Hin. destruct Hin as [Hin | Heq].
            ++ apply (Fa _ _ Hin).
-           ++ inv_pair. unfold lex_le. lia.
+           ++ inv_pair. unfold lex_le_k. lia.
       * destruct S as [(-> & -> & Sa) | (Sl & Si & Sn & Sa)].
         -- left. repeat split; auto.
            intros h c Hin Hnh. apply in_snoc in Hin. destruct Hin as [Hin | Heq].
@@ -114,12 +119,12 @@ Proof.
         -- right. split; [exact Sl|]. split; [apply in_snoc; auto|]. split; [exact Sn|].
            intros h c Hin Hnh. apply in_snoc in Hin. destruct Hin as [Hin | Heq].
            ++ apply (Sa _ _ Hin Hnh).
-           ++ inv_pair. unfold lex_le. lia.
+           ++ inv_pair. unfold lex_le_k. lia.
 Qed.
 
-Lemma refresh_fold_gen : forall cs2 cs1 acc,
-  NoDup (map fst (cs1 ++ cs2)) -> two_least cs1 acc ->
-  two_least (cs1 ++ cs2) (fold_left refresh_step cs2 acc).
+Lemma refresh_fold_gen_k : forall cs2 cs1 acc,
+  NoDup (map fst (cs1 ++ cs2)) -> two_least_k cs1 acc ->
+  two_least_k (cs1 ++ cs2) (fold_left (refresh_step_k key) cs2 acc).
 Proof.
   induction cs2 as [|[hop cost] cs2 IH]; intros cs1 acc Hnd Hacc.
   - rewrite app_nil_r. exact Hacc.
@@ -127,20 +132,20 @@ Proof.
       by (rewrite <- app_assoc; reflexivity).
     apply IH.
     + rewrite <- app_assoc. exact Hnd.
-    + apply refresh_step_ok; [exact Hacc|].
+    + apply refresh_step_ok_k; [exact Hacc|].
       rewrite map_app in Hnd. simpl in Hnd. apply NoDup_remove_2 in Hnd.
       intro Hin. apply Hnd. apply in_or_app. left. exact Hin.
 Qed.
 
 (* refresh computes the two least pairs *)
-Lemma refresh_fold_spec : forall cs, NoDup (map fst cs) -> two_least cs (refresh_fold cs).
+Lemma refresh_fold_k_spec : forall cs, NoDup (map fst cs) -> two_least_k cs (refresh_fold_k key cs).
 Proof.
-  intros cs Hnd. unfold refresh_fold.
-  apply (refresh_fold_gen cs [] (INF, 0, INF, 0)); [exact Hnd | exact two_least_nil].
+  intros cs Hnd. unfold refresh_fold_k.
+  apply (refresh_fold_gen_k cs [] (INF, 0, INF, 0)); [exact Hnd | exact two_least_nil_k].
 Qed.
 
 (* the two least pairs are unique *)
-Lemma two_least_unique : forall cs b b', two_least cs b -> two_least cs b' -> b = b'.
+Lemma two_least_unique_k : forall cs b b', two_least_k cs b -> two_least_k cs b' -> b = b'.
 Proof.
   intros cs [[[l1 h1] l2] h2] [[[l1' h1'] l2'] h2'] [F S] [F' S'].
   assert (E1 : l1 = l1' /\ h1 = h1').
@@ -148,18 +153,20 @@ Proof.
     - auto.
     - specialize (Fa _ _ Fi'). lia.
     - specialize (Fa' _ _ Fi). lia.
-    - specialize (Fa _ _ Fi'). specialize (Fa' _ _ Fi). unfold lex_le in *. lia. }
+    - specialize (Fa _ _ Fi'). specialize (Fa' _ _ Fi). unfold lex_le_k in *.
+      assert (l1 = l1') by lia. split; [assumption|]. apply key_inj. lia. }
   destruct E1 as [-> ->].
   assert (E2 : l2 = l2' /\ h2 = h2').
   { destruct S as [(-> & -> & Sa) | (Sl & Si & Sn & Sa)]; destruct S' as [(-> & -> & Sa') | (Sl' & Si' & Sn' & Sa')].
     - auto.
     - specialize (Sa _ _ Si' Sn'). lia.
     - specialize (Sa' _ _ Si Sn). lia.
-    - specialize (Sa _ _ Si' Sn'). specialize (Sa' _ _ Si Sn). unfold lex_le in *. lia. }
+    - specialize (Sa _ _ Si' Sn'). specialize (Sa' _ _ Si Sn). unfold lex_le_k in *.
+      assert (l2 = l2') by lia. split; [assumption|]. apply key_inj. lia. }
   destruct E2 as [-> ->]. reflexivity.
 Qed.
 
-Lemma two_least_perm : forall cs cs' b, Permutation cs cs' -> two_least cs b -> two_least cs' b.
+Lemma two_least_perm_k : forall cs cs' b, Permutation cs cs' -> two_least_k cs b -> two_least_k cs' b.
 Proof.
   intros cs cs' [[[l1 h1] l2] h2] P [F S].
   assert (I : forall x, In x cs <-> In x cs').
@@ -175,12 +182,38 @@ Proof.
 Qed.
 
 (* whatever order the Go map is iterated in, refresh yields the same lowest costs and next hops *)
-Theorem refresh_fold_order_independent : forall cs cs',
-  NoDup (map fst cs) -> Permutation cs cs' -> refresh_fold cs = refresh_fold cs'.
+Theorem refresh_fold_order_independent_k : forall cs cs',
+  NoDup (map fst cs) -> Permutation cs cs' -> refresh_fold_k key cs = refresh_fold_k key cs'.
 Proof.
   intros cs cs' Hnd P.
-  apply (two_least_unique cs').
-  - apply (two_least_perm cs); [exact P | apply refresh_fold_spec; exact Hnd].
-  - apply refresh_fold_spec.
+  apply (two_least_unique_k cs').
+  - apply (two_least_perm_k cs); [exact P | apply refresh_fold_k_spec; exact Hnd].
+  - apply refresh_fold_k_spec.
     apply (Permutation_NoDup (Permutation_map fst P)). exact Hnd.
 Qed.
+
+End AnyTieBreak.
+
+(* ---- the tie-break of the implementation (smaller or larger name hash, as measured) is one of them ---- *)
+Lemma tie_key_inj : forall a b, tie_key a = tie_key b -> a = b.
+Proof. intros a b. unfold tie_key. destruct tie_smaller_wins; lia. Qed.
+
+Definition lex_le := lex_le_k tie_key.
+Definition first_ok := first_ok_k tie_key.
+Definition second_ok := second_ok_k tie_key.
+Definition two_least := two_least_k tie_key.
+
+Lemma refresh_fold_spec : forall cs, NoDup (map fst cs) -> two_least cs (refresh_fold cs).
+Proof. exact (refresh_fold_k_spec tie_key tie_key_inj). Qed.
+
+Lemma two_least_unique : forall cs b b', two_least cs b -> two_least cs b' -> b = b'.
+Proof. exact (two_least_unique_k tie_key tie_key_inj). Qed.
+
+Lemma two_least_perm : forall cs cs' b, Permutation cs cs' -> two_least cs b -> two_least cs' b.
+Proof. exact (two_least_perm_k tie_key). Qed.
+
+Theorem refresh_fold_order_independent : forall cs cs',
+  NoDup (map fst cs) -> Permutation cs cs' -> refresh_fold cs = refresh_fold cs'.
+Proof. exact (refresh_fold_order_independent_k tie_key tie_key_inj). Qed.
+
+Global Opaque tie_key.
